@@ -540,3 +540,65 @@ def agg_payloads(body, operand):
             elif rhs["k"] == "ref":
                 work.append(pl_local(rhs["place"]))
     return out
+
+
+def exists_forms(fx, body, src_rx):
+    """The ways `body` computes "some element of <src> satisfies a test": list of (form, call) with form in
+    any  : src.any(closure)
+    find : src.find(closure) / src.position(closure) whose result is only tested with is_some / a Some-match
+    loop : for x in src { if test(x) { return true } } false — every `true` written to the return place in the loop sits on the
+           Some edge of the loop's next(), every `false` on its None edge (no early negative exit)
+    src_rx is matched against the canonical expression of the iterated collection."""
+    out = []
+    for c in body.calls_to(r"Iterator>?::any$"):
+        if re.search(src_rx, expr(body, c.args[0])):
+            out.append(("any", c))
+    for c in body.calls_to(r"Iterator>?::(find|position)$"):
+        if re.search(src_rx, expr(body, c.args[0])):
+            d = expr(body, c.dest)
+            uses = [x for x in body.calls_to(r"Option::is_some$") if expr(body, x.args[0]) == d]
+            if uses:
+                out.append(("find", c))
+    for c in body.calls_to(r"Iterator>?::next$"):
+        it = expr(body, c.args[0])
+        m = re.fullmatch(r"into_iter\((.*)\)", it)
+        if not (m and re.search(src_rx, m.group(1))):
+            continue
+        nx = "next(%s)" % it
+        inside = body.reachable(c.bb)
+        good = True
+        seen_true = False
+        for (bb, idx, lhs, rhs) in body.def_sites(0):
+            if bb not in inside or not (isinstance(rhs, dict) and rhs["k"] == "use" and op_int(rhs["op"]) in (0, 1)):
+                continue
+            gs = guard_strs(body, bb)
+            if op_int(rhs["op"]) == 1:
+                seen_true = True
+                good = good and ("V1:" + nx) in gs
+            else:
+                good = good and ("V0:" + nx) in gs
+        if good and seen_true:
+            out.append(("loop", c))
+    return out
+
+
+def local_sig(body, name):
+    """Shape of the definitions of the source-level local `name` (closures included): what it is bound to, without any
+    local names — callee of a call, or the projection path / rvalue kind of an assignment.  Used to tell which new name
+    replaced a vanished one (check: named anchors)."""
+    out = set()
+    for t in tree(body):
+        for l in t.locals_named(name):
+            if 1 <= l <= t.argc:
+                out.add("param")
+            for (bb, idx, lhs, rhs) in t.def_sites(l):
+                if isinstance(rhs, Call):
+                    out.add("call:" + (rhs.callee_q or rhs.decl_q or "?").rsplit("::", 1)[-1])
+                else:
+                    k = rhs["k"]
+                    pl_ = rhs.get("place") if k in ("ref", "discr") else (op_place(rhs["op"]) if k in ("use", "cast") and isinstance(rhs.get("op"), dict) and ("cp" in rhs["op"] or "mv" in rhs["op"]) else None)
+                    if pl_ is not None:
+                        out.add(k + ":" + "".join(el.split("@")[0] for el in pl_proj(pl_)))
+                    else:
+                        out.add(k + (":" + rhs["op"] if k in ("binop", "unop") else ""))
+    return sorted(out)
